@@ -56,6 +56,43 @@ partial def tzNeedsEscapeT (esc : Char → Bool) : DataType → Bool
   | _ => false
 end
 
+/-! ### which data types the field conversions of a back end offer (marrow 0.2.3 ↔ arrow-schema 55 / arrow2 0.17)
+
+A FIXED table, written from the conversion code of marrow (`impl TryFrom<&Field> for arrow_schema::Field` and back: total;
+`impl TryFrom<&Field> for arrow2::datatypes::Field`: no byte views, no run-end encoding, no negative decimal scale, sizes
+are `usize`, dictionary keys are `IntegerType`).  It decides whether a refusal is legitimate: a conversion that refuses a
+schema whose types the back end offers is a violation of C09 (`schema/C09/unexpected-refusal/<backend>/<type>`), and so is
+one that accepts and does not give the schema back.  An acceptance of a type the table lists as missing is reported as a
+disagreement (the table is meant to be exact).  Compare `dtGap` of Driver/Suites/Backend.lean (arrays). -/
+def dtRefused (backend : String) (dt : DataType) : Option String :=
+  if backend != "arrow2" then none else
+  match dt with
+  | .utf8View => some "Utf8View"
+  | .binaryView => some "BinaryView"
+  | .decimal128 _ s => if s < 0 then some "Decimal128(negative-scale)" else none
+  | .fixedSizeBinary n => if n < 0 then some "FixedSizeBinary(negative)" else none
+  | .fixedSizeList _ n => if n < 0 then some "FixedSizeList(negative)" else none
+  | .runEndEncoded _ _ => some "RunEndEncoded"
+  | .dictionary k _ => if isIntType k then none else some "Dictionary(non-integer-key)"
+  | _ => none
+
+/-- data types in the field (pre-order) the back end does not offer -/
+partial def fieldRefused (backend : String) (f : Field) : List String :=
+  (dtRefused backend f.dataType).toList ++ match f.dataType with
+  | .struct fs => fs.toList.flatMap (fieldRefused backend)
+  | .list c | .largeList c | .fixedSizeList c _ => fieldRefused backend c
+  | .map e _ => fieldRefused backend e
+  | .union us _ => us.toList.flatMap fun x => fieldRefused backend x.2
+  | .dictionary k v => fieldRefused backend (.mk "" k false []) ++ fieldRefused backend (.mk "" v false [])
+  | .runEndEncoded r v => fieldRefused backend r ++ fieldRefused backend v
+  | _ => []
+
+def refused (backend : String) (fs : List Field) : List String := fs.flatMap (fieldRefused backend)
+
+/-- the back end a key of a `fields` case converts through -/
+def backendOf (key : String) : String :=
+  if (key.splitOn "arrow2").length > 1 then "arrow2" else if (key.splitOn "arrow").length > 1 || (key.splitOn "refs").length > 1 then "arrow" else "marrow"
+
 /-- compare one implementation outcome with a model outcome; returns `none` when they agree -/
 def diffOutcome (what : String) (model : R (List Field)) (impl : Json) : Except String (Option String) := do
   let (cls, fs) ← implFields impl
@@ -133,50 +170,93 @@ def handleFields (j : Json) : Except String Verdict := do
   let inDomain := fs.all schemaOK
   tags := tags ++ [if inDomain then "in-domain" else if valid then s!"outside:{blame.getD "?"}" else "invalid"]
   if fs.isEmpty then tags := tags ++ ["trivial"]
-  -- 1. foreign field objects
-  for key in ["foreign", "foreign_arrow"] do
+  if fs.any (fun f => match f.dataType with | .timestamp _ (some tz) => tz != "UTC" && tz.toUpper == "UTC" | _ => false) then
+    tags := tags ++ ["tz-utc-case-variant"]
+  -- what a valid schema is accepted as: unchanged, `Null` fields become nullable
+  let expect := fs.map fun f => match f with
+    | .mk n .null _ m => Field.mk n .null true m
+    | f => f
+  -- 1. foreign field objects (marrow fields, arrow fields, arrow field refs) where a schema value is accepted, read as
+  -- marrow fields and straight into arrow / arrow2 field vectors; 1b. tracing with every field overwritten
+  let mut accepting : List (String × String × Json) := []   -- (key, back end, outcome)
+  for key in ["foreign", "foreign_arrow", "foreign_refs", "foreign_to_refs", "foreign_to_arrow", "foreign_to_arrow2", "foreign_refs_to_arrow2"] do
     match j.getObjVal? key with
     | .error _ => pure ()
-    | .ok o =>
-      outcomes := o :: outcomes
-      if let some w ← diffOutcome key (acceptForeignList fs) o then problems := problems ++ [(s!"C09/{key}/{firstCtor fs}", w)]
-      let (cls, got) ← implFields o
-      -- specification: a valid schema is accepted unchanged (Null fields become nullable), never altered otherwise
-      if cls == "ok" then
-        let expect := fs.map fun f => match f with
-          | .mk n .null _ m => Field.mk n .null true m
-          | f => f
-        -- a field object that does not denote a valid schema (`validField`, the explicit predicate of Spec/SchemaOK.lean,
-        -- not the operational model: `C09_foreign_iff` says they agree) must not be accepted; the entries field of a map
-        -- carrying a strategy no struct admits has its own signature (the defect repaired by `fix: validate_map_field
-        -- validates the entries field itself`)
-        if !valid then
-          let what := if !fs.all entriesField then "Map/entries-strategy" else blame.getD (firstCtor fs)
-          specFail := specFail ++ [(s!"C09/{key}/invalid-accepted/{what}", s!"{key}: a field object that does not denote a valid schema was accepted")]
-        else if got != expect then specFail := specFail ++ [(s!"C09/{key}/altered/{firstCtor fs}", s!"{key}: accepted fields differ from the given ones")]
-      else if cls == "err" && inDomain then
-        specFail := specFail ++ [(s!"C09/{key}/rejected/{firstCtor fs}", s!"{key}: a valid schema was rejected")]
-  -- 2. arrow / arrow2 field conversions
+    | .ok o => accepting := accepting ++ [(key, if key.endsWith "arrow2" then "arrow2" else "marrow", o)]
+  for key in ["traced_samples", "traced_type"] do
+    match j.getObjVal? key with
+    | .error _ => pure ()
+    | .ok l =>
+      tags := tags ++ ["traced"]
+      for e in (← l.getArr?).toList do
+        let t ← (← e.getArrVal? 0).getStr?
+        accepting := accepting ++ [(s!"{key}/{t}", if t == "arrow2" then "arrow2" else "marrow", ← e.getArrVal? 1)]
+  for (key, backend, o) in accepting do
+    outcomes := o :: outcomes
+    let gaps := refused backend expect
+    let model : R (List Field) := if !gaps.isEmpty then fail "type not offered by the back end" else acceptForeignList fs
+    if let some w ← diffOutcome key model o then
+      problems := problems ++ [(s!"C09/{key}/{if !gaps.isEmpty && implCls o == "ok" then s!"unexpected-acceptance/{gaps.headD "?"}" else firstCtor fs}", w)]
+    let (cls, got) ← implFields o
+    -- specification: a valid schema is accepted unchanged (Null fields become nullable), never altered otherwise
+    if cls == "ok" then
+      -- a field object that does not denote a valid schema (`validField`, the explicit predicate of Spec/SchemaOK.lean,
+      -- not the operational model: `C09_foreign_iff` says they agree) must not be accepted; the entries field of a map
+      -- carrying a strategy no struct admits has its own signature (the defect repaired by `fix: validate_map_field
+      -- validates the entries field itself`)
+      if !valid then
+        let what := if !fs.all entriesField then "Map/entries-strategy" else blame.getD (firstCtor fs)
+        specFail := specFail ++ [(s!"C09/{key}/invalid-accepted/{what}", s!"{key}: a field object that does not denote a valid schema was accepted")]
+      else if got != expect then specFail := specFail ++ [(s!"C09/{key}/altered/{firstCtor fs}", s!"{key}: accepted fields differ from the given ones")]
+    else if cls == "err" && valid then
+      if gaps.isEmpty then
+        specFail := specFail ++ [(if backend == "marrow" then s!"C09/{key}/rejected/{firstCtor fs}" else s!"C09/unexpected-refusal/{backend}/{key}/{firstCtor fs}",
+          s!"{key}: a valid schema{if backend == "marrow" then "" else " whose types the back end offers"} was rejected")]
+      else tags := tags ++ [s!"{backend}-na"]
+  -- 2. arrow / arrow2 field conversions.  A refusal is judged against the support table, never passed over
   let arrow ← getObj j "arrow"
   outcomes := arrow :: outcomes
   if implCls arrow != "ok" then
-    tags := tags ++ ["arrow-na"]
+    let gaps := refused "arrow" fs
+    if gaps.isEmpty then
+      specFail := specFail ++ [(s!"C09/unexpected-refusal/arrow/arrow/{firstCtor fs}",
+        s!"the conversion of the fields to arrow fields and into a SerdeArrowSchema was refused although arrow offers every type: {arrow.compress}")]
+    else tags := tags ++ ["arrow-na"]
   else
-    -- (`arrow_plain`, `*_owned`: API coverage — the borrowed conversion into `Vec<arrow Field>` and the owned ones)
-    for key in ["arrow", "arrow_refs", "arrow2", "arrow_plain", "arrow_owned", "arrow_refs_owned", "arrow2_owned"] do
+    -- (`arrow_plain`, `*_owned`: API coverage — the borrowed conversion into `Vec<arrow Field>` and the owned ones;
+    -- `arrow2_direct`: the arrow2 fields read by marrow, not through a second schema)
+    for key in ["arrow", "arrow_refs", "arrow2", "arrow2_direct", "arrow_plain", "arrow_owned", "arrow_refs_owned", "arrow2_owned"] do
       match j.getObjVal? key with
       | .error _ => pure ()
       | .ok o =>
         outcomes := o :: outcomes
+        let backend := backendOf key
+        let gaps := refused backend fs
         let (cls, got) ← implFields o
         if cls == "ok" then
           if got != fs then specFail := specFail ++ [(s!"C09/{key}/altered/{firstCtor fs}", s!"{key}: fields changed by the conversion and back")]
-        else if key == "arrow2" then tags := tags ++ ["arrow2-na"]
-        else if key == "arrow2_owned" then
-          -- the owned conversion is the borrowed one
-          if implCls ((j.getObjVal? "arrow2").toOption.getD Json.null) == "ok" then
-            problems := problems ++ [(s!"C09/{key}/{cls}", s!"{key}: fails where the borrowed conversion succeeds")]
-        else problems := problems ++ [(s!"C09/{key}/{cls}", s!"{key}: conversion back failed")]
+          if !gaps.isEmpty then
+            problems := problems ++ [(s!"C09/{key}/unexpected-acceptance/{gaps.headD "?"}", s!"{key}: the support table lists {gaps} as not offered by {backend}, the conversion succeeded")]
+        else if cls == "err" then
+          if gaps.isEmpty then
+            specFail := specFail ++ [(s!"C09/unexpected-refusal/{backend}/{key}/{firstCtor fs}", s!"{key}: a schema whose types {backend} offers was refused: {o.compress}")]
+          else tags := tags ++ [s!"{backend}-na"]
+    -- there and back compared with `PartialEq for SerdeArrowSchema`
+    match j.getObjVal? "rt_eq" with
+    | .error _ => pure ()
+    | .ok o =>
+      outcomes := o :: outcomes
+      let v := (o.getObjVal? "ok").toOption.getD Json.null
+      let b (k : String) : Option Bool := (v.getObjValAs? Bool k).toOption
+      if b "fields" != some true then specFail := specFail ++ [(s!"C09/rt_eq/fields/{firstCtor fs}", s!"schema → Vec<arrow Field> → schema is not the schema it started from: {o.compress}")]
+      if b "refs" != some true then specFail := specFail ++ [(s!"C09/rt_eq/refs/{firstCtor fs}", s!"schema → Vec<FieldRef> → schema is not the schema it started from: {o.compress}")]
+      if b "arrow2" != (if (refused "arrow2" fs).isEmpty then some true else none) then
+        specFail := specFail ++ [(s!"C09/rt_eq/arrow2/{firstCtor fs}", s!"schema → Vec<arrow2 Field> → schema: {o.compress}")]
+      -- the schema read from the marrow fields as foreign objects is the same schema (up to Null ⇒ nullable)
+      if b "foreign" != (if valid then some (decide (expect = fs)) else none) then
+        specFail := specFail ++ [(s!"C09/rt_eq/foreign/{firstCtor fs}", s!"from_value(&marrow fields) vs the schema converted from arrow fields: {o.compress}")]
+      if inDomain && b "json" != some true then
+        specFail := specFail ++ [(s!"C09/rt_eq/json/{firstCtor fs}", s!"schema → JSON → schema is not the schema it started from: {o.compress}")]
     -- API coverage: Clone / PartialEq / Default of SerdeArrowSchema
     match j.getObjVal? "value_traits" with
     | .error _ => pure ()
@@ -213,6 +293,14 @@ def handleFields (j : Json) : Except String Verdict := do
       let (b2cls, b2fs) ← implFields b2
       if b2cls == "ok" && (bcls != "ok" || b2fs != bfs) then
         specFail := specFail ++ [(s!"C09/back_arrow2/altered/{firstCtor fs}", "from_value into arrow2 fields differs from from_value into marrow fields")]
+      -- from_value into arrow2 fields may refuse only what arrow2 does not offer
+      if bcls == "ok" then
+        let gaps := refused "arrow2" bfs
+        if b2cls == "err" && gaps.isEmpty then
+          specFail := specFail ++ [(s!"C09/unexpected-refusal/arrow2/back_arrow2/{firstCtor fs}", s!"from_value into arrow2 fields refused a schema whose types arrow2 offers: {b2.compress}")]
+        else if b2cls == "ok" && !gaps.isEmpty then
+          problems := problems ++ [(s!"C09/back_arrow2/unexpected-acceptance/{gaps.headD "?"}", s!"back_arrow2: the support table lists {gaps} as not offered by arrow2")]
+        else if b2cls == "err" then tags := tags ++ ["arrow2-na"]
       -- specification of the property on the JSON form
       tags := tags ++ [s!"back-{bcls}"]
       if inDomain then
@@ -234,6 +322,7 @@ def handleFields (j : Json) : Except String Verdict := do
           | none => specFail := specFail ++ [(s!"C09/json-rt/altered/{firstCtor fs}", "read back altered")]
   let c16v := c16 outcomes
   if c16v == "fail" then specFail := specFail ++ [("C09/panic", "a schema operation panicked")]
+  tags := tags.eraseDups
   match specFail, problems with
   | (sig, why) :: _, _ => return { agree := problems.isEmpty, spec := [("C09", "fail"), ("C16", c16v)], sig, tags, why }
   | [], (sig, why) :: _ => return { agree := false, spec := [("C09", "pass"), ("C16", c16v)], sig, tags, why }
@@ -277,8 +366,75 @@ def handleStrategy (j : Json) : Except String Verdict := do
   | [], (sig, why) :: _ => return { agree := false, spec := [("C09", "pass"), ("C16", c16v)], sig, tags, why }
   | [], [] => return { agree := true, spec := [("C09", "pass"), ("C16", c16v)], tags }
 
+/-- traced schemas (`from_type` of a type description, `from_samples` of a sample collection) through the JSON form.
+Correspondence: the model's printer on the traced fields writes the crate's JSON, the model's reader on that JSON is what the
+crate reads back.  Specification (C09, "for all schemas the crate can trace"): a traced schema survives `to_value` /
+`from_value` unchanged.  Tie to the theorems `C09_from_type_in_domain` / `C09_from_samples_in_domain`: the traced fields lie
+in `SchemaOK`, except for the one documented shape — a never-reached position traced as a non-nullable `Null` under
+`allow_null_fields`, from samples only (`C09_unseen_position_outside`, known finding `C09-traced-unseen-null`). -/
+def handleTraced (j : Json) : Except String Verdict := do
+  let esc ← escOf j
+  let allowNull := ((← getObj j "opts").getObjValAs? Bool "allow_null_fields").toOption.getD false
+  let hasOw := match (← getObj j "opts").getObjVal? "overwrites" with
+    | .ok (.arr a) => !a.isEmpty
+    | _ => false
+  let mut tags : List String := []
+  let mut problems : List (String × String) := []
+  let mut specFail : List (String × String) := []
+  let mut outcomes : List Json := []
+  let mut anyOk := false
+  let mut na := false
+  for (key, what) in [("type", "from_type"), ("samples_out", "from_samples")] do
+    match j.getObjVal? key with
+    | .error _ => pure ()
+    | .ok o =>
+      outcomes := o :: outcomes
+      tags := tags ++ [s!"{what}-{implCls o}"]
+      if implCls o != "ok" then continue
+      anyOk := true
+      let v ← o.getObjVal? "ok"
+      let fs ← fieldsOfJson (← v.getObjVal? "fields")
+      let ij ← v.getObjVal? "json"
+      let back ← v.getObjVal? "back"
+      outcomes := back :: outcomes
+      tags := tags ++ (fs.map fun f => f.dataType.ctor)
+      let inDomain := fs.all schemaOK
+      let blame := fs.findSome? blameField
+      -- correspondence: printer and reader of the model on the traced schema
+      match printSchema esc fs with
+      | .ok mj =>
+        if ofJVal mj != ij then
+          problems := problems ++ [(s!"C09/traced/{what}/print/{firstCtor fs}", s!"to_value of the traced schema: model wrote {(ofJVal mj).compress}, implementation {ij.compress}")]
+      | .error _ => problems := problems ++ [(s!"C09/traced/{what}/print/class", "the model cannot write the traced schema")]
+      if let some w ← diffOutcome s!"{what}: from_value(to_value(schema))" (parseSchema (toJVal ij)) back then
+        problems := problems ++ [(s!"C09/traced/{what}/read/{firstCtor fs}", w)]
+      -- the theorems: traced fields lie in the domain
+      if !inDomain && !hasOw && !(what == "from_samples" && allowNull && blame == some "Null/non-nullable") then
+        problems := problems ++ [(s!"C09/traced/{what}/outside-domain/{blame.getD "?"}", s!"{what} returned a schema outside SchemaOK ({blame.getD "?"}): contradicts C09_{what}_in_domain")]
+      -- specification: the traced schema survives the JSON form
+      let (bcls, bfs) ← implFields back
+      let eq := (v.getObjValAs? Bool "eq").toOption
+      let teq := (v.getObjValAs? Bool "text_eq").toOption
+      if bcls == "ok" && bfs == fs && eq == some true && teq == some true then tags := tags ++ ["traced-survives"]
+      else if inDomain || !hasOw then
+        let b := blame.getD (firstCtor fs)
+        specFail := specFail ++ [(s!"C09/traced/{what}/json-rt/{b}", s!"{what}: the traced schema does not survive to_value / from_value unchanged ({bcls}, eq {eq}, text {teq}; {b})")]
+      else
+        -- an overwrite outside the JSON domain (sorted map, sparse union): the known findings of the `fields` cases
+        na := true
+        tags := tags ++ [s!"outside:{blame.getD "?"}"]
+  if !anyOk then tags := tags ++ ["traced-none"]
+  let c16v := c16 outcomes
+  if c16v == "fail" then specFail := specFail ++ [("C09/panic", "a schema operation panicked")]
+  tags := tags.eraseDups
+  match specFail, problems with
+  | (sig, why) :: _, _ => return { agree := problems.isEmpty, spec := [("C09", "fail"), ("C16", c16v)], sig, tags, why }
+  | [], (sig, why) :: _ => return { agree := false, spec := [("C09", "pass"), ("C16", c16v)], sig, tags, why }
+  | [], [] => return { agree := true, spec := [("C09", if !anyOk || na then "na" else "pass"), ("C16", c16v)], tags }
+
 def handle (j : Json) : Except String Verdict := do
   match (← getStr j "kind") with
+  | "traced" => handleTraced j
   | "spell" => handleSpell j
   | "strategy" => handleStrategy j
   | "json" => handleJson j
